@@ -222,6 +222,6 @@ history_st = st.fixed_dictionaries(
 def parts():
     return [
         Part("layouts_enum", check_layout, enumerate=lambda tier: hg.enum_layouts(), exhaustive=True),
-        Part("layouts_gen", check_layout, strategy=hg.grid_cfg(), budget={"quick": 3000, "thorough": 60000}),
+        Part("layouts_gen", check_layout, strategy=hg.grid_cfg(), strategy_thorough=hg.grid_cfg(max_len=6), budget={"quick": 3000, "thorough": 60000}),
         Part("history", check_history, strategy=history_st, budget={"quick": 3000, "thorough": 60000}),
     ]
